@@ -156,14 +156,22 @@ def stepCore (s : St) (op : String) (got : String) : StepResult St :=
     | some n =>
       -- the keys (name hashes) are taken from the implementation; A-hash is checked here
       match got.splitOn " " with
-      | "ok" :: ks =>
+      | "ok" :: ks0 =>
+        let ks := ks0.filter fun t => !t.startsWith "proc="
         match parseNats ks with
         | some keys =>
           let okKeys := keys.length == n && keys.eraseDups.length == n && !keys.contains 0
           let net : Net := keys.map Router.start
+          -- equal-cost next hops are ordered by these keys: "ties are broken the same way every time" needs the
+          -- keys (at least their order) to be a function of the router names, i.e. the same in every process —
+          -- a router that restarts is another process
+          let procFail : List SpecFail :=
+            if ks0.contains "proc=differs" then
+              [⟨"tie-break-same-in-every-process", "name-keys", s!"another process of the same binary computes different keys for the same router names: the preference among equal-cost next hops changes when a router restarts ({got})"⟩]
+            else []
           { st := { net := net, keys := keys, links := [], ver := List.replicate n 1, sp := { n := n, keys := keys } },
             expected := none,
-            spec := if okKeys then [] else [⟨"A-hash", "keys", s!"router keys not distinct / zero / wrong count: {got}"⟩] }
+            spec := (if okKeys then [] else [⟨"A-hash", "keys", s!"router keys not distinct / zero / wrong count: {got}"⟩]) ++ procFail }
         | none => { st := {}, expected := some "ok <keys>" }
       | _ => { st := {}, expected := some "ok <keys>" }
   | ["sweep", a, wsT] =>
